@@ -101,6 +101,21 @@ def run(res):
             res.violation('compute_SCCs is wrong on a graph with nodes %r' % (names,),
                           {'adjacency': adj, 'order': order, 'names': [repr(x) for x in names],
                            'impl': sorted(map(sorted, got)), 'expected': sorted(map(sorted, truth))})
+    # the generator consumed lazily: two generators over the same graph advanced in lock-step, and one consumed twice
+    lazy = 0
+    for adj, order in cases[:: max(1, len(cases) // 300)]:
+        G = impl_graph(adj, order)
+        seq = [sorted(c) for c in compute_SCCs(G)]
+        g1, g2 = compute_SCCs(G), compute_SCCs(G)
+        inter = []
+        for a, b in itertools.zip_longest(g1, g2):
+            inter.append((sorted(a) if a is not None else None, sorted(b) if b is not None else None))
+        again = [sorted(c) for c in g1]
+        lazy += 1
+        if [a for a, _ in inter] != seq or [b for _, b in inter] != seq or again != []:
+            res.violation('compute_SCCs: two generators over the same graph advanced in lock-step give %r, one consumed at once %r '
+                          '(a second pass over an exhausted generator: %r)' % (inter, seq, again),
+                          {'adjacency': adj, 'order': order})
     lines, impl = [], []
     for adj, order in cases:
         G = impl_graph(adj, order)
